@@ -363,8 +363,8 @@ func collect(n *tnode, v any, present bool, path []any, top, chain, all bool, sk
 			// the values of the fields that are selected whatever the runtime type
 			// is are offending positions in their own right: a renderer that trips
 			// over one of them first reports that one
-			for _, f := range n.fields {
-				if f.static != "" || f.on != nil || f.key == "__typename" {
+			for _, f := range n.unconditionalFields() {
+				if f.static != "" || f.key == "__typename" {
 					continue
 				}
 				fv, has := o[f.key]
@@ -437,7 +437,10 @@ func dropIndices(p []any) []any {
 // judge decides all clauses for one (type tree, payload, rendered bytes).
 // structuralOnly: only the clauses that hold for any payload whatsoever (valid
 // JSON, top-level keys) are judged (used for payloads the table leaves open).
-func judge(tree *tnode, payload map[string]any, out []byte, structuralOnly bool) *judgement {
+// valueCompletion: the response was rendered with
+// ApolloCompatibilityValueCompletionInExtensions; replacements may then be
+// reported in extensions.valueCompletion instead of errors.
+func judge(tree *tnode, payload map[string]any, out []byte, structuralOnly, valueCompletion bool) *judgement {
 	j := &judgement{}
 	doc, err := parseStrict(out)
 	if err != nil {
@@ -450,7 +453,7 @@ func judge(tree *tnode, payload map[string]any, out []byte, structuralOnly bool)
 		return j
 	}
 	for k := range top {
-		if k != "data" && k != "errors" {
+		if k != "data" && k != "errors" && !(k == "extensions" && valueCompletion) {
 			j.fail(clTop, "unexpected top-level key", "top-level key %q in %s", k, clip(string(out), 300))
 		}
 	}
@@ -460,17 +463,19 @@ func judge(tree *tnode, payload map[string]any, out []byte, structuralOnly bool)
 		return j
 	}
 	var errPaths [][]any
-	if ev, has := top["errors"]; has {
+	// parseReports reads a list of {message, path, ...} entries (`errors`, or
+	// `extensions.valueCompletion` in the Apollo value completion mode)
+	parseReports := func(ev any, what string) bool {
 		el, ok := ev.([]any)
 		if !ok || len(el) == 0 {
-			j.fail(clTop, "errors present but not a non-empty list", "output %s", clip(string(out), 300))
-			return j
+			j.fail(clTop, what+" present but not a non-empty list", "output %s", clip(string(out), 300))
+			return false
 		}
 		for _, e := range el {
 			eo, ok := e.(map[string]any)
 			if !ok {
 				j.fail(clTop, "error entry is not an object", "output %s", clip(string(out), 300))
-				return j
+				return false
 			}
 			if _, ok := eo["message"].(string); !ok {
 				j.fail(clTop, "error entry without string message", "output %s", clip(string(out), 300))
@@ -480,7 +485,7 @@ func judge(tree *tnode, payload map[string]any, out []byte, structuralOnly bool)
 				pl, ok := pv.([]any)
 				if !ok {
 					j.fail(clTop, "error path is not a list", "output %s", clip(string(out), 300))
-					return j
+					return false
 				}
 				for _, s := range pl {
 					switch x := s.(type) {
@@ -490,16 +495,34 @@ func judge(tree *tnode, payload map[string]any, out []byte, structuralOnly bool)
 						i, err := x.Int64()
 						if err != nil || i < 0 {
 							j.fail(clTop, "error path segment is not a key or index", "output %s", clip(string(out), 300))
-							return j
+							return false
 						}
 						p = append(p, int(i))
 					default:
 						j.fail(clTop, "error path segment is not a key or index", "output %s", clip(string(out), 300))
-						return j
+						return false
 					}
 				}
 			}
 			errPaths = append(errPaths, p)
+		}
+		return true
+	}
+	if ev, has := top["errors"]; has {
+		if !parseReports(ev, "errors") {
+			return j
+		}
+	}
+	if ext, has := top["extensions"]; has {
+		// only in the value completion mode, only {"valueCompletion": [...]}: its
+		// entries report replacements exactly like entries of `errors`
+		eo, ok := ext.(map[string]any)
+		if !ok || len(eo) != 1 || eo["valueCompletion"] == nil {
+			j.fail(clTop, "unexpected extensions", "output %s", clip(string(out), 300))
+			return j
+		}
+		if !parseReports(eo["valueCompletion"], "extensions.valueCompletion") {
+			return j
 		}
 	}
 	j.nErrors = len(errPaths)
@@ -577,9 +600,10 @@ func pathShapeProblem(n *tnode, v any, p []any) string {
 				return "index segment under an object"
 			}
 			var fld *tfield
-			for k := range n.fields {
-				if n.fields[k].key == key {
-					fld = &n.fields[k]
+			nf := n.anyFields()
+			for k := range nf {
+				if nf[k].key == key {
+					fld = &nf[k]
 				}
 			}
 			if fld == nil {
@@ -648,9 +672,10 @@ func (t *typeSafety) check(n *tnode, o any, path []any, root bool) {
 		// type and a rendered __typename names a possible type
 		for k, v := range m {
 			var fld *tfield
-			for i := range n.fields {
-				if n.fields[i].key == k {
-					fld = &n.fields[i]
+			nf := n.anyFields()
+			for i := range nf {
+				if nf[i].key == k {
+					fld = &nf[i]
 				}
 			}
 			if fld == nil {
